@@ -39,10 +39,11 @@ CHECKS = {
         technique='Lean 4 proof (byte-level round-trip theorems for the record framing and the Connection framing; inductive '
                   'invariants, progress and a decreasing measure over LTS models of the client/server multiplexing and of the '
                   'two crossed FIFOs) + byte-exact differential runs and event-trace replay of the real code through the models',
-        text='Frame: C18_frame_first / _roundtrip / _truncated — read_record returns exactly what write_record wrote (id, encoder, '
-             'payload bytes) for arbitrary payload bytes and any number of records, and a cut stream never yields a phantom record. '
-             'Mux: C18_mux_own_response / _at_most_once / _ids_distinct / _no_unmatched / _progress / _terminates / _all_answered, '
-             'C18_stream_order / _stream_complete — for every interleaving of client senders/receivers, server receivers/responders '
+        text='Frame: C18_frame_first / _roundtrip / _truncated / _chunking / _roundtrip_chunked / _prefix_stable — read_record returns exactly '
+             'what write_record wrote (id, encoder, payload bytes) for arbitrary payload bytes and any number of records, a cut stream never '
+             'yields a phantom record, and every chunking of every byte stream is read like the concatenation. '
+             'Mux: C18_mux_own_response / _handler_payload / _at_most_once / _ids_distinct / _no_unmatched / _progress / _terminates / '
+             '_all_answered / _server_local, C18_stream_order / _stream_complete — for every capacity of the bounded buffers and every interleaving of client senders/receivers, server receivers/responders '
              'and handler completions over any number of connections and requesters, every future is set once, with the handler\'s '
              'response or exception to its own payload; nothing is lost; stream() preserves input order; the id-minting rule gives '
              'distinct live ids. Pipe: C18_pipe_fifo / _no_loss — each endpoint receives exactly what its peer sent, in order, for '
